@@ -208,7 +208,20 @@ pub fn pick_args(rng: &mut Rng, af: &AAFramework<usize>, max_len: usize) -> Vec<
     let k = if max_len <= 1 { 1 } else { [1, 2, 2, 3][rng.below(4)].min(max_len) };
     let comps = components(af);
     let mut v: Vec<usize> = Vec::new();
-    match rng.below(4) {
+    match rng.below(5) {
+        4 if k >= 2 => {
+            // an argument defeated by the grounded extension (attacked by an unattacked one) next to
+            // arbitrary other ones: shortcuts that reason about "attacked by the current set" see
+            // a mixed list
+            let atts: Vec<(usize, usize)> = af.iter_attacks().map(|a| (*a.attacker().label(), *a.attacked().label())).collect();
+            let unattacked: Vec<usize> = live.iter().filter(|l| !atts.iter().any(|(_, b)| b == *l)).cloned().collect();
+            let defeated: Vec<usize> = live.iter().filter(|l| atts.iter().any(|(a, b)| b == *l && unattacked.contains(a))).cloned().collect();
+            if !defeated.is_empty() {
+                v.push(*rng.pick(&defeated));
+            }
+            while v.len() < k { v.push(*rng.pick(&live)); }
+            rng.shuffle(&mut v);
+        }
         0 if comps.len() >= 2 => {
             // one argument from each of k different components
             let mut order: Vec<usize> = (0..comps.len()).collect();
@@ -256,6 +269,23 @@ pub fn emit_case(
     args: &[usize],
     fault: Fault,
 ) -> usize {
+    emit_case_pre(out, g, af, sem, q, cert, enc, args, fault, None)
+}
+
+/// Same, optionally preceded by another query put to the SAME solver object (whose outcome is not
+/// reported): state kept by the object or by its encoder between queries must not matter.
+pub fn emit_case_pre(
+    out: &mut Out,
+    g: &GenAf,
+    af: &AAFramework<usize>,
+    sem: &str,
+    q: &str,
+    cert: bool,
+    enc: &str,
+    args: &[usize],
+    fault: Fault,
+    pre: Option<Q>,
+) -> usize {
     out.case(&format!("static/{}/{}/{}/{}", sem, q, if cert { "cert" } else { "nocert" }, enc));
     out.inp(&format!("recipe {}", g.recipe));
     write_build(out, &g.build);
@@ -263,9 +293,15 @@ pub fn emit_case(
     if let Fault::UnknownAt(k) = fault {
         out.inp(&format!("fault {}", k));
     }
+    if let Some((pq, pc, pa)) = &pre {
+        out.inp(&format!("pre {} {} {}", pq, if *pc { 1 } else { 0 }, join(pa.iter(), " ")));
+    }
     let sh = new_shared(fault);
     let fac = recording_factory(&sh);
-    let r = guarded(|| run_query(af, sem, q, cert, enc, args, fac));
+    let r = guarded(|| match &pre {
+        None => run_query(af, sem, q, cert, enc, args, fac),
+        Some(p) => run_queries(af, sem, enc, &[p.clone(), (q, cert, args.to_vec())], fac).pop().unwrap(),
+    });
     flush_log(&sh, out);
     match r {
         Ok(o) => out.out(&o.to_line()),
@@ -357,7 +393,7 @@ pub fn run(rng: &mut Rng, count: usize, thorough: bool, cfg: &Cfg, out: &mut Out
                 let n = rng.range(20, if thorough { 300 } else { 120 });
                 gen_large(rng, n)
             } else if rng.chance(1, 12) {
-                let (n, a, r) = funnel(rng);
+                let (n, a, r) = if rng.chance(1, 2) { funnel(rng) } else { multi_funnel(rng) };
                 finish(rng, n, a, r)
             } else {
                 gen_af(rng, max_n)
@@ -414,7 +450,14 @@ pub fn run(rng: &mut Rng, count: usize, thorough: bool, cfg: &Cfg, out: &mut Out
                         }
                         continue;
                     }
-                    emit_case(out, &g, &af, sem, q, *cert, enc, &args, Fault::None);
+                    // one case in five is preceded by another query on the same solver object
+                    let pre: Option<Q> = if !all && rng.chance(1, 5) {
+                        let supported: Vec<&str> = PROBLEMS.iter().filter(|(s2, _)| s2 == sem).map(|(_, q2)| *q2).collect();
+                        let pq = *rng.pick(&supported);
+                        let pa = if pq == "SE" || af.n_arguments() == 0 { vec![] } else { pick_args(rng, &af, cfg.max_args) };
+                        if pq != "SE" && pa.is_empty() { None } else { Some((pq, pq != "SE" && rng.chance(1, 2), pa)) }
+                    } else { None };
+                    emit_case_pre(out, &g, &af, sem, q, *cert, enc, &args, Fault::None, pre);
                     produced += 1;
                 }
             }
